@@ -75,7 +75,9 @@ fn invoke(
 ) -> proc_macro::TokenStream {
     #[cfg(audunhalland_entrait_verif)]
     if verif::enter() {
-        return verif::record(attr, input, |attr, input| invoke(attr, input, opts_modifier));
+        return verif::record(attr, input, |attr, input| {
+            invoke(attr, input, opts_modifier)
+        });
     }
 
     let input = syn::parse_macro_input!(input as Input);
